@@ -182,6 +182,37 @@ def regrid_conformance(en: E.Engine):
       _close(en, f'_interval_overlap(S={S}, target cell {t})', inst, native[t])
 
 
+def matrix_conformance(en: E.Engine):
+  """pyvc matrix mode (2-d arrays) against native numpy on the vertical weight matrices (log values supplied as facts)."""
+  from dinosaur import primitive_equations as pe, sigma_coordinates as sc
+  from contracts import vertical_matrix_contracts as VM
+  from vlib.pyvc import matrix
+  VM._setup(en)
+  rng = np.random.RandomState(5)
+  en.cover('conformance')
+  for n in (1, 2, 4):
+    b = np.concatenate([[0.0], np.sort(rng.uniform(0.05, 0.95, n - 1)), [1.0]])
+    real = sc.SigmaCoordinates(b)
+    self = E.Obj(boundaries=cvec(b, 'boundaries'))
+    for prop in ('centers', 'layer_thickness'):
+      kind, v = en.invoke(en.load_function(getattr(sc.SigmaCoordinates, prop).fget), self)
+      setattr(self, prop, v)
+    self.layers = n
+    for k_ in range(n):
+      en.assume(matrix.LOG(z3.simplify(E._real(self.centers.get(k_)))) == E.to_z3(float(np.log(float(real.centers[k_])))))
+    kind, a = en.invoke(en.load_function(pe.get_sigma_ratios), self)
+    _close(en, f'get_sigma_ratios(n={n})', a, pe.get_sigma_ratios(real))
+    kind, G = en.invoke(en.load_function(pe.get_geopotential_weights), self, 2.5)
+    nat = pe.get_geopotential_weights(real, 2.5)
+    for r in range(n):
+      _close(en, f'get_geopotential_weights(n={n}) row {r}', en.subscript(G, r), nat[r])
+    T = rng.uniform(200, 300, n)
+    kind, H = en.invoke(en.load_function(pe.get_temperature_implicit_weights), self, cvec(T, 'T'), 0.3)
+    nat = pe.get_temperature_implicit_weights(real, T, 0.3)
+    for r in range(n):
+      _close(en, f'get_temperature_implicit_weights(n={n}) row {r}', en.subscript(H, r), nat[r])
+
+
 def clauses():
   rc = lambda c, n: (lambda ctx: run_contract(c, min_obligations=n, timeout_ms=60000, max_paths=4000))
   return {
@@ -194,6 +225,9 @@ def clauses():
                     ['dinosaur.sigma_coordinates.centered_difference', 'dinosaur.sigma_coordinates.centered_vertical_advection'], rc(sigma_conformance, 12), group='pyvc-conf'),
       'C02b': Clause('conformance:pyvc array mode == native execution on Laplacian eigenvalues / inverse / clip', 'enum',
                      ['dinosaur.spherical_harmonic.Grid.inverse_laplacian', 'dinosaur.spherical_harmonic.Grid.clip_wavenumbers'], rc(grid_conformance, 8), group='pyvc-conf'),
+      'C03': Clause('conformance:pyvc matrix mode == native execution on the vertical weight matrices (2-d library contracts)', 'enum',
+                    ['dinosaur.primitive_equations.get_sigma_ratios', 'dinosaur.primitive_equations.get_geopotential_weights',
+                     'dinosaur.primitive_equations.get_temperature_implicit_weights'], rc(matrix_conformance, 12), group='pyvc-conf'),
       'C16': Clause('conformance:pyvc row mode == native execution on the interval overlaps', 'enum', ['dinosaur.vertical_interpolation._interval_overlap'], rc(regrid_conformance, 8),
                     group='pyvc-conf'),
   }
